@@ -3,7 +3,7 @@ import ast
 
 from ..core import AnalysisError, u, walk_local, enclosing_stmt
 from ..lib import (construct, std_facts, def_of, copy_kind, at_least, facts_at,
-                   calls_of_node, stored_names, in_subtree, returns_of, card_cases, is_recursive_copier)
+                   calls_of_node, stored_names, in_subtree, returns_of, card_cases, is_recursive_copier, expand_expr)
 from ..resolve import store_accesses
 from .common import hasheq, dunder_sweep, instance_state, finalize_conflict_guard, method_selector_rule
 
@@ -332,11 +332,13 @@ def run(ctx):
   okk = True
   for r in [n for n in g.live_nodes() if n.kind == 'return' and n.ast.value is not None]:
     v = r.ast.value
+    if isinstance(v, ast.Name):
+      v = expand_expr(facts[r.id], v)
     sel = v.elts[1] if isinstance(v, ast.Tuple) and len(v.elts) == 2 else None
     if sel is None:
       okk = False
       continue
-    defs = [a.value for a in walk_local(asf.node) if isinstance(a, ast.Assign) and u(a.targets[0]) == u(sel)]
+    defs = [a.value for a in walk_local(asf.node) if isinstance(a, ast.Assign) and u(a.targets[0]) == u(sel)] if isinstance(sel, ast.Name) else [sel]
     finals = [d for d in defs if not (isinstance(d, ast.Call) and u(d.func).endswith('get_match'))]
     okk = okk and bool(finals) and all(u(d).endswith('.selector') or 'selector if' in u(d) for d in finals if not isinstance(d, ast.Constant))
   ctx.check(okk, 'C08.complete-keys', construct(asf), 'selector-or-object lookup returns the registry\'s complete selector',
